@@ -6,6 +6,8 @@ from ..lib import driver, gen, ser
 
 ID = "C13"
 LEAN_MODULES = ["TakVerif.Props.C13"]
+# cross-operation sessions (lib/session.py): which operations this property judges
+SESSION = {"kinds": {"format", "parse"}}
 RULE = (
     "format: tak.ptn.format_tps vs TPS.formatTPS on positions of sizes 3..8 (random legal play with 6 biased policies, "
     "standard+custom reserves; constructed boards with tops-only stacks up to height 2*size; ply >= 0). "
